@@ -29,7 +29,7 @@ Definition blk_hc_linked (st : nat -> horc) (n : nat) (h x : list byte) : option
   let o := st n in
   if blk_guard x && horc_consistent o h x then
     match os_continue (ho_m o) (ho_c o) (ho_src o) (len x) (len x - 1) with
-    | Some (TRes ret consumed out hw c') => blk_out ret out
+    | Some (TRes ret consumed out hw c') => blk_out_g ret out
     | None => None
     end
   else None.
@@ -46,7 +46,7 @@ Proof.
   set (lim := if len x - 1 <? compressBound (len x) then LimitedOutput else NotLimited).
   assert (Hlim : lim <> FillOutput) by (subst lim; destruct (len x - 1 <? compressBound (len x)); discriminate).
   destruct (ts_continue_generic blk_all lvl_all (ho_m (st n)) (ho_c (st n)) (ho_src (st n)) (len x) (len x - 1) lim) as [[ret consumed out hw c']|] eqn:E; [|discriminate].
-  intros H. destruct (blk_out_some _ _ _ H) as (Hp & -> & _).
+  intros H. destruct (blk_out_g_some _ _ _ H) as (Hp & -> & _).
   destruct (os_continue_generic_sound (ho_m (st n)) (ho_c (st n)) (ho_src (st n)) (len x) (len x - 1) lim ret consumed out hw c'
               O1 O2 O3 O4 ltac:(lia) ltac:(lia) E) as (ke & cte & He & Hr & _ & _ & Hpost).
   pose proof (ts_call_decodes (ho_m (st n)) ke (ho_src (st n)) (len x) (len x - 1) lim ret consumed out hw c' (ho_H (st n))
@@ -62,7 +62,7 @@ Proof.
   intros n h x c. unfold blk_hc_linked. cbv zeta.
   destruct (blk_guard x && horc_consistent (st n) h x); [|discriminate].
   destruct (os_continue _ _ _ _ _) as [[ret consumed out hw c']|]; [|discriminate].
-  intros H. destruct (blk_out_some _ _ _ H) as (_ & _ & Hb). exact Hb.
+  intros H. destruct (blk_out_g_some _ _ _ H) as (_ & _ & Hb). exact Hb.
 Qed.
 
 Print Assumptions blk_hc_linked_contract.
